@@ -182,7 +182,8 @@ def run(chk):
                             # a lazily rebuilt cache member: rebuilding it (or marking it dirty) instead of copying it is as
                             # good, provided the rebuild saw the final inputs - that ordering is C09-R3's obligation
                             okv = v[0] in ("rebuilt", "bool")
-                        if not okv and name in R1_EXCEPTIONS and v in (("val", "this", name), ("uninit",)):
+                        if not okv and (name in R1_EXCEPTIONS or fld["ty"].get("std") == "basic_string") and v in (("val", "this", name), ("uninit",)):
+                            # the diagnostic text of the last validation (a string member, whatever it is called)
                             okv = True
                         if not okv:
                             bad = (sc, "ends as %s, not as a copy of other.%s" % (show(v), name))
